@@ -53,7 +53,7 @@ REACH_PROBES = ('match', 'match_groups', 'match_all', 'flags', 'inside_lambda', 
 
 FLAGS = [None, '', 'i', 'm', 's', 'ims', 'IM', 'is', 'x', 'zz', 'iiii']
 BENIGN = ['\\d+', '[a-z]+', '(\\w)(\\d)', 'b', '.', 'a|b', '^a', 'c$', '(a)(b)?', '\\s']
-NASTY = ['(?#\\L<timeout>)(a|aa)+$', '(?:a|aa)+?', '(a|aa)+?(?=a|b)', '^(\\w+-?)+{id}$', 'a{x}(b+)+$', '(a+)+$', '(a|aa)+$', '(a*)*b', '(a|a)*c', '(.*a){12}', '(a+)+(b)$', '((a+)(c?))+$', '(?:a{1,50}){1,50}b', '(\\w+\\s?)*$',
+NASTY = ['(?:(?:a|a)+b)?', '(a+b)?', 'x*', '(?#\\L<timeout>)(a|aa)+$', '(?:a|aa)+?', '(a|aa)+?(?=a|b)', '^(\\w+-?)+{id}$', 'a{x}(b+)+$', '(a+)+$', '(a|aa)+$', '(a*)*b', '(a|a)*c', '(.*a){12}', '(a+)+(b)$', '((a+)(c?))+$', '(?:a{1,50}){1,50}b', '(\\w+\\s?)*$',
          '(a|aa)+(c)$', '(?r)(a+)+b', '(?:aa|a)+?x{e<=1}', '(x+x+)+y', '(a)(b)\\1\\2(a+)+$']
 
 
